@@ -1,5 +1,6 @@
 import NdnVerif.Driver.Common
 import NdnVerif.C14.Spec
+import NdnVerif.C14.Table
 open Ndn Ndn.Driver Ndn.C14
 
 /-- spec state: hashes and encodings seen in this history (implementation outputs only) -/
@@ -155,6 +156,24 @@ def stepC14 (s : S14) (op : String) (got : String) : StepResult S14 :=
       spec := crashSpec "PrefixHash" got ++
         (if !isCrash got && parts.getD 0 "x" != parts.getD 1 "y" then
           [⟨"prefix-hash", "ph", s!"PrefixHash differs from the hashes of the prefixes: {got}"⟩] else []) }
+  | "tab" :: kind :: q :: ns =>
+    -- a table keyed on names (kind = trie: engine NameTrie; mem: object MemoryStore): insert the names in
+    -- order, report for each the index of the entry the table finds for it (its class), and for the trie the
+    -- depth of the node PrefixMatch(q) returns.  Names the table cannot tell apart must be Equal.
+    match Name.ofText q, ns.mapM Name.ofText with
+    | some qn, some names =>
+      let cls := classes compKey names
+      let want := eqClasses names
+      let showL (l : List Nat) := ",".intercalate (l.map toString)
+      let d := prefixDepth compKey names qn
+      let exp := if kind == "trie" then s!"c={showL cls} d={d}" else s!"c={showL cls}"
+      let wantS := if kind == "trie" then s!"c={showL want} d={specPrefixDepth names qn}" else s!"c={showL want}"
+      { st := s, expected := some exp, cov := ["tab-" ++ kind] ++ (if want.zipIdx.any (fun p => p.1 != p.2) then ["tab-equal-names"] else []),
+        nontrivial := names.length ≥ 2,
+        spec := crashSpec ("table " ++ kind) got ++
+          (if !isCrash got && got != wantS then
+            [⟨"table-keying", "tab-" ++ kind, s!"a {kind} table over {ns} (query {q}) answered {got}; by name equality it must answer {wantS}"⟩] else []) }
+    | _, _ => bad s
   | _ => bad s
 
 def main : IO Unit := Ndn.Driver.run ({} : S14) stepC14
